@@ -421,6 +421,11 @@ def translate_math_module(src, modname, allowed_plain):
         raise TrError("signature of %s" % st.name)
       if len(st.decorator_list) == 1:
         name, pos = ew_args(st.decorator_list[0])
+        # the keyword under which the broadcast argument is looked up must be the parameter at pos
+        eff = 0 if (name == "" and pos is None) else pos
+        if name != "" and (eff is None or eff >= len(params) or params[eff] != name):
+          raise TrError("elementwise(%r, %r) on %s%r: keyword name is not the parameter at that position"
+                        % (name, pos, st.name, tuple(params)))
         res["wrappers"].append((st.name, name, pos, "def", params))
         continue
       if st.decorator_list:
